@@ -127,6 +127,24 @@ def parseScope : List String → Option (Scope Float)
     pure ((n, v) :: r)
   | _ => none
 
+/-- `<time> (F <name> <val> | T <name> <s:string>)*` -/
+def parsePoint : List String → Option (Point Float)
+  | t :: rest => do
+    let tm ← t.toInt?
+    let rec go : List String → Point Float → Option (Point Float)
+      | [], p => some p
+      | "F" :: n :: v :: more, p => do
+        let n ← unesc n
+        let v ← parseVal v
+        go more { p with fields := p.fields ++ [(n, v)] }
+      | "T" :: n :: v :: more, p => do
+        let n ← unesc n
+        let v ← unesc v
+        go more { p with tags := p.tags ++ [(n, v)] }
+      | _, _ => none
+    go rest { time := tm, fields := [], tags := [] }
+  | [] => none
+
 /-- oracle tables of one case -/
 structure Ora where
   calls : List (String × List String × ORes Float) := []   -- fn, rendered args, result
@@ -239,6 +257,54 @@ def judge (_id : String) (lines : Array String) : Verdict := Id.run do
       let some k := k.toNat? | return .badop l
       st := { st with fns := setI st.fns k (FnState.init floatOps), hists := setI st.hists k (some {}) }
       st := st.addBr ["copy-reset"]
+    | "pt" :: k :: ptoks =>
+      -- kapacitor.EvalPredicate against a point (fillScope + Type + EvalBool)
+      let some e := st.expr | return .badop l
+      if !st.compiled then return .badop s!"pt on an expression that did not compile: {l}"
+      let some k := k.toNat? | return .badop l
+      let some pt := parsePoint ptoks | return .badop l
+      let some fs := getI st.fns k | return .badop s!"unknown instance {l}"
+      let some hs := getI st.hists k | return .badop s!"unknown instance {l}"
+      let ctx := mkCtx st.ora
+      let obsC := match obs with
+        | ["ok", v] => s!"ok {canonObs v}"
+        | o => " ".intercalate o
+      st := { st with evals := st.evals + 1 }
+      let refs := refsOf e
+      let brs : List String :=
+        ["path-point"] ++
+        (if refs.any (fun n => (denote pt n).isNone) then ["pt-field-tag-collision"] else []) ++
+        (if refs.contains "time" then ["pt-time"] else []) ++
+        (if refs.any (fun n => n != "time" && (assoc pt.fields n).isNone && (assoc pt.tags n).isSome) then ["pt-tag"] else []) ++
+        (if refs.any (fun n => n != "time" && (assoc pt.fields n).isNone && (assoc pt.tags n).isNone) then ["pt-missing"] else [])
+      let brs := brs ++ (match fillScope refs pt with | some σ => brOf ctx σ e st.cache | none => [])
+      if brs.contains "dyn-typeflip" then st := { st with flipSeen := true }
+      st := st.addBr brs
+      if obsC == "panic" then return .specfail "no-trap" s!"{l}: EvalPredicate panicked"
+      let mut newH : Option (Hist Float) := none
+      match hs with
+      | some h =>
+        let (ex, h') := expectPoint ctx e pt h
+        newH := h'
+        match ex with
+        | .exactly o =>
+          if obsC != renderOut o then
+            return .specfail (match o with | .ok _ => "value-is-reference-value" | _ => "fault-is-error")
+              s!"{l}: reference {renderOut o} observed {obsC}"
+          st := st.addBr [match o with | .ok _ => "spec-welltyped-value" | _ => "spec-welltyped-fault"]
+        | .errOr v =>
+          if obsC != "err" && obsC != s!"ok {renderVal v}" then
+            return .specfail "value-is-reference-value" s!"{l}: reference err-or {renderVal v} observed {obsC}"
+          st := st.addBr ["spec-illtyped-unreached"]
+        | .mustErr =>
+          if obsC != "err" then return .specfail "type-error-is-error" s!"{l}: reference err observed {obsC}"
+          st := st.addBr ["spec-illtyped-err"]
+      | none => st := st.addBr ["spec-history-unfixed"]
+      let (o, c', fs') := evalPoint ctx e pt st.cache fs
+      if obsC != renderOut o then return .mismatch s!"{l}: model {renderOut o} observed {obsC}"
+      if obsC.startsWith "ok" then st := { st with okSeen := true }
+      st := st.addBr [if obsC.startsWith "ok" then "out-ok" else "out-err"]
+      st := { st with cache := c', fns := setI st.fns k fs', hists := setI st.hists k newH }
     | "ev" :: k :: path :: binds =>
       let some e := st.expr | return .badop l
       if !st.compiled then return .badop s!"ev on an expression that did not compile: {l}"
